@@ -119,14 +119,14 @@ def gen_dataset_cfg(rng, flavor='general', big=False):
             cfg['poison'].append({'name': 'tmpl', 'kind': 'nan_template',
                                   'ids': cfg['unused_templates'][:2]})
         if p['amps'] and rng.random() < 0.25:
-            cfg['poison'].append({'name': 'amps', 'kind': rng.choice(['nan', 'inf']),
-                                  'pos': sorted(rng.sample(range(ns), min(ns, 2)))})
+            cfg['poison'].append({'name': 'amps', 'kind': rng.choice(['nan', 'inf', 'mixed']),
+                                  'pos': sorted(rng.sample(range(ns), min(ns, rng.randint(2, 3))))})
         if p['similar'] and rng.random() < 0.2:
             cfg['poison'].append({'name': 'similar', 'kind': rng.choice(['nan', 'inf']),
                                   'pos': [rng.randrange(nt * nt)]})
         if p['attrs'] and rng.random() < 0.4:
-            cfg['poison'].append({'name': 'attr', 'kind': rng.choice(['nan', 'inf']),
-                                  'pos': [rng.randrange(ns)]})
+            cfg['poison'].append({'name': 'attr', 'kind': rng.choice(['nan', 'inf', 'mixed']),
+                                  'pos': sorted(rng.sample(range(ns), min(ns, rng.randint(1, 3))))})
     elif flavor == 'sparse_ok':
         cfg['sparse'] = rng.random() < 0.45
         if cfg['sparse']:
@@ -200,6 +200,8 @@ def build_gt(cfg):
     else:
         g.chmap = np.arange(nc, dtype=np.int64)
     g.pos = positions(rs, nc, cfg['geometry'])
+    # real probes are millimetres long and need not start at x = 0
+    g.pos = g.pos * float(cfg.get('pos_scale', 1)) + np.array([float(cfg.get('x_shift', 0)), 0.])
     g.shanks = (np.arange(nc) * cfg['n_shanks'] // nc).astype(np.int64)
     g.probes = (np.arange(nc) * cfg['n_probes'] // nc).astype(np.int64)
     # templates (whitened space)
@@ -294,8 +296,14 @@ def build_gt(cfg):
             g.raw = np.round(rs.normal(size=(n_rec, n_dat)) * 50, 2).astype(dt)
     # poisoned values
     g.nan_templates = []
+    def _val(kind, j):
+        if kind in ('nan', 'nan_template'):
+            return np.nan
+        if kind == 'mixed':   # +inf, -inf, nan, ... in one file
+            return [np.inf, -np.inf, np.nan][j % 3]
+        return np.inf
     for po in cfg['poison']:
-        val = np.nan if po['kind'] in ('nan', 'nan_template') else np.inf
+        val = _val(po['kind'], 0)
         if po['name'] == 'tmpl':
             for t in po['ids']:
                 if t < nt:
@@ -303,13 +311,14 @@ def build_gt(cfg):
                     g.tmpl_data[t] = np.nan
                     g.nan_templates.append(t)
         elif po['name'] == 'amps':
-            for i in po['pos']:
+            for j, i in enumerate(po['pos']):
                 if i < ns:
-                    g.amps[i] = val
+                    g.amps[i] = _val(po['kind'], j)
         elif po['name'] == 'similar' and g.similar is not None:
             g.similar.flat[po['pos'][0] % g.similar.size] = val
         elif po['name'] == 'attr' and 'works' in g.attrs:
-            g.attrs['works'][po['pos'][0] % ns] = val
+            for j, i in enumerate(po['pos']):
+                g.attrs['works'][i % ns] = _val(po['kind'], j)
     return g
 
 
